@@ -377,7 +377,7 @@ func c12mapOrders(c *fw.Check, maxDev int) {
 	budget := 20 * time.Minute
 	fw.ParallelFor(len(inputs), func(i int) {
 		cmd := exec.Command(os.Args[0], "C12", "--tier", c.Tier, "--maporder-worker", fmt.Sprint(i), "--maxdev", fmt.Sprint(maxDev), "--budget-s", fmt.Sprint(int(budget.Seconds())))
-		cmd.Env = append(os.Environ(), "GOMAXPROCS=1", "GORACE=halt_on_error=0 log_path=/dev/null")
+		cmd.Env = append(os.Environ(), "GOMAXPROCS=1", "GORACE=halt_on_error=0 log_path=/dev/null atexit_sleep_ms=0")
 		var so, se bytes.Buffer
 		cmd.Stdout, cmd.Stderr = &so, &se
 		err := cmd.Run()
@@ -617,7 +617,7 @@ func c12fresh() map[string]string {
 	out := make([]string, len(c12inputs))
 	fw.ParallelFor(len(c12inputs), func(i int) {
 		cmd := exec.Command(os.Args[0], "C12", "--fresh", fmt.Sprint(i))
-		cmd.Env = append(os.Environ(), "GORACE=halt_on_error=0")
+		cmd.Env = append(os.Environ(), "GORACE=halt_on_error=0 atexit_sleep_ms=0")
 		var so, se bytes.Buffer
 		cmd.Stdout, cmd.Stderr = &so, &se
 		if err := cmd.Run(); err != nil {
@@ -699,6 +699,9 @@ func runC12(c *fw.Check) {
 	if hasArg("--worker") {
 		schedWorkerMain("C12")
 	}
+	if hasArg("--leak-worker") {
+		c12leakWorker()
+	}
 	if hasArg("--maporder-worker") {
 		var i, md, bs int
 		fmt.Sscan(argValue("--maporder-worker"), &i)
@@ -714,7 +717,7 @@ func runC12(c *fw.Check) {
 		os.Exit(0)
 	}
 	c13requireFull()
-	c.Rule = "three owned sources of nondeterminism, each ENUMERATED on the real translator: (a) every `for range map` loop of asm/ir (rewritten through the overlay by go/types, so new loops are included) iterates in canonical order; for each input all non-identity permutations at one hit (thorough: at every pair of hits) are executed and accept/reject + printed text compared with the default order; (b) all histories of depth<=D over {ParseString A/B/rejected C/C2, ParseBytes, Parse(reader: all-at-once, 1 byte/call, data+EOF, zero-length reads), ParseFile, print(last)} in one long-lived process against fresh-process references; A and B reuse the same names/literals/IDs with different meanings; (c) all schedules (vhook scheduler, TSan on each) of concurrent parses/prints. distinct = distinct (input,permutation set) + histories + schedules."
+	c.Rule = "three owned sources of nondeterminism, each ENUMERATED on the real translator: (a) every `for range map` loop of asm/ir (rewritten through the overlay by go/types, so new loops are included) iterates in canonical order; for each input all non-identity permutations at one hit (thorough: at every pair of hits) are executed and accept/reject + printed text compared with the default order; (b) all histories of depth<=D over {ParseString A/B/rejected C/C2, ParseBytes, Parse(reader: all-at-once, 1 byte/call, data+EOF, zero-length reads), ParseFile, print(last)} in one long-lived process against fresh-process references; A and B reuse the same names/literals/IDs with different meanings; (c) all schedules (vhook scheduler, TSan on each) of concurrent parses/prints; (d) leak matrix: every catalogue variant with <=1 (thorough <=2) deviations is the FIRST parse of a fresh process, which then parses every production in its simplest form (thorough: <=1 deviations), parses the first input again and prints all modules again: every result equals the result of the same text as first parse of a fresh process. distinct = distinct (input,permutation set) + histories + schedules."
 	ref := c12fresh()
 	for k, v := range ref {
 		if strings.HasPrefix(v, "FRESH-PROCESS-FAILED") {
@@ -750,6 +753,9 @@ func runC12(c *fw.Check) {
 	t0 = time.Now()
 	c12histories(c, depth, ref)
 	c.Extra["wall_histories_s"] = time.Since(t0).Seconds()
+	t0 = time.Now()
+	c12leakMatrix(c)
+	c.Extra["wall_leak_matrix_s"] = time.Since(t0).Seconds()
 	// (c)
 	scs := schedRegistry["C12"](c.Quick())
 	names := make([]string, len(scs))
